@@ -22,12 +22,13 @@ cd $W/repo
 crate=renet
 grep -q "renetcode" $src/demo.rs 2>/dev/null && ! grep -q "use renet::" $src/demo.rs && crate=renetcode
 grep -q "renet_netcode" $src/demo.rs 2>/dev/null && crate=renet_netcode
+feat=""; case $crate in renet|renetcode) feat="--features verif_hooks";; esac
 mkdir -p $crate/tests
 demo_ok_clean=unknown; demo_fails_mut=unknown; tests_pass=unknown
 if [ -f $src/demo_patch.diff ]; then git apply $src/demo_patch.diff || echo "demo_patch does not apply"; else cp $src/demo.rs $crate/tests/seeded_demo.rs; fi
-if cargo test -p $crate --offline --test seeded_demo >$W/demo_clean.log 2>&1; then demo_ok_clean=yes; else demo_ok_clean=NO; fi
+if cargo test -p $crate $feat --offline --test seeded_demo >$W/demo_clean.log 2>&1; then demo_ok_clean=yes; else demo_ok_clean=NO; fi
 if git apply $src/patch.diff; then
-  if cargo test -p $crate --offline --test seeded_demo >$W/demo_mut.log 2>&1; then demo_fails_mut=NO; else demo_fails_mut=yes; fi
+  if cargo test -p $crate $feat --offline --test seeded_demo >$W/demo_mut.log 2>&1; then demo_fails_mut=NO; else demo_fails_mut=yes; fi
   rm -f $crate/tests/seeded_demo.rs
   if cargo test -p renet -p renetcode -p renet_netcode --offline >$W/tests_mut.log 2>&1; then tests_pass=yes; else tests_pass=NO; fi
 else
